@@ -54,6 +54,13 @@ def pe_grid(rng, tier):
     for c in cuts:
         out.append(base[:c])
     out += [b"junk" + x + b"tail" for x in out[:: 7]]
+    for nrva in (0, 1, 2, 4, 5, 15, 17, 0xFFFFFFFF):       # NumberOfRvaAndSizes: fewer (or absurdly more) data directories than sixteen
+        b = bytearray(base)
+        b[0x80 + 4 + 20 + 0x5C:0x80 + 4 + 20 + 0x60] = struct.pack("<I", nrva & 0xFFFFFFFF)
+        out.append(bytes(b))
+        if nrva < 16:
+            out.append(mini_pe(2, 0, rng, nrva=nrva))
+            out.append(b"junk " + mini_pe(1, 0, rng, nrva=nrva) + b" tail")
     out += [base + base, base[:0x400] + base, b"MZ" * 40, b"MZ" + bytes(0x3A) + struct.pack("<I", 0x40) + b"PE\0\0"]
     return out
 
@@ -173,6 +180,11 @@ def inputs_for(tier: str, rng) -> list[tuple[bytes, int]]:
         out.append((d[:4096], k))
     # undecoded contexts nest without regard to the depth limit (a call inside a call inside a call ...): the only
     # inputs longer than 4 KiB; the nesting of the result tree is the nesting of the text
+    # numbers with thousands of digits wherever a number is parsed (CPython refuses to convert more than 4300 digits)
+    for z in (b"0" * 4400, b"9" * 4400, b"0" * 5000 + b"65"):
+        out += [(b"&#65;&#66;&#" + z + b";&#67;&#68;&#69;&#70;", 10), (b"&#x41;&#x42;&#x" + z + b";&#x43;&#x44;&#x45;", 10), (b"chrw(" + z + b")", 10),
+                (b"FromBase64String('ZHVjaw==') -bxor " + z, 10), (b"1,2," * 170 + z + b",3 -bxor 7", 10), (b"http://" + z + b"/", 10),
+                (b"http://example.com:" + z + b"/", 10), (b"%" + z, 10)]
     for opener in (b"createobject(", b"CreateObject('", b"cmd /c (", b"unescape('", b"("):
         for n in (300, 1200):
             out.append((opener * n + b")" * n, 10))
